@@ -501,11 +501,18 @@ U53 = F(1, 2 ** 53)
 
 
 def coq_q(x: float) -> str:
-    return coq_dy(x)
+    """a binary64 value for the case files: P m k = m / 2^k, M m k = -m / 2^k (primitive integer literals)"""
+    n, d = float(x).as_integer_ratio()
+    k = d.bit_length() - 1
+    assert d == 1 << k and abs(n) < 2 ** 62 and k < 2 ** 20
+    return f'(P {n} {k})' if n >= 0 else f'(M {-n} {k})'
 
 
 def coq_frac(f: F) -> str:
-    return f'(Qmake ({f.numerator})%Z {f.denominator}%positive)'
+    """a tolerance k * 2^-53 (k small)"""
+    k = f / U53
+    assert k.denominator == 1 and 0 <= k < 2 ** 60
+    return f'(P {k.numerator} 53)'
 
 
 def coq_qlist(xs):
@@ -521,7 +528,7 @@ def chunks(xs, k=200):
 
 
 def coq_nlist(xs):
-    return '[' + '; '.join(str(int(i)) for i in xs) + ']%N'
+    return '[' + '; '.join(str(int(i)) for i in xs) + ']'
 
 
 def finite(x):
@@ -603,23 +610,32 @@ class AS241:
         return self.tail_r(math.sqrt(-math.log(area)))
 
     def tail_close(self, z, area):
-        """is z the tail formula evaluated at sqrt(-log(area)), when log/sqrt are only trusted to a few ulps?
+        """is z the tail formula evaluated at r = sqrt(-log(area)), when log/sqrt are only trusted to a few ulps?
         The implementation uses numpy's vectorised log (documented <= 4 ulp, and not the same for every array length),
         the reference libm's.  Where the code applies the tail formula far outside its domain (known defect) the
-        rational function is ill-conditioned (37 ulps of z per ulp of r observed), so a fixed ulp count on z is not
-        meaningful: z must lie in the band swept by the formula when r moves by +-8 ulps, widened by 8 ulps of z."""
+        numerator polynomial nearly cancels (0.004 from terms of size 1), so a fixed ulp count on z is meaningless.
+        Tolerance = running error bound of the two Horner evaluations, 16 * 2^-53 * (S_num + |z| S_den) / |den| with
+        S = sum |c_k| |x|^k, plus the effect of 8 ulps on r (slope by a central difference), plus 8 ulps of z."""
         if not (0.0 < area < 1.0) or not finite(z):
             return False
-        r = math.sqrt(-math.log(area))
         try:
-            vals = [self.tail_r(r * (1.0 + k * 2.0 ** -52)) for k in (-4, -2, -1, 0, 1, 2, 4)]
+            r = math.sqrt(-math.log(area))
+            v = self.tail_r(r)
+            if r <= self.split2:
+                x, num, den = r - self.const2, self.c, self.d
+            else:
+                x, num, den = r - self.split2, self.e, self.f
+            s_num = sum(abs(ck) * abs(x) ** k for k, ck in enumerate(num))
+            s_den = sum(abs(ck) * abs(x) ** k for k, ck in enumerate(den))
+            dv = abs(self._horner(den, x))
+            h = 1e-7 * r
+            slope = abs(self.tail_r(r + h) - self.tail_r(r - h)) / (2 * h)
         except (ValueError, ZeroDivisionError, OverflowError):
             return False
-        if not all(finite(v) for v in vals):
+        if not all(finite(t) for t in (v, s_num, s_den, dv, slope)) or dv == 0.0:
             return False
-        lo, hi = F(min(vals)), F(max(vals))
-        slack = ZTOL_ULPS * U53 * max(abs(lo), abs(hi))
-        return lo - slack <= F(z) <= hi + slack
+        tol = 16 * 2.0 ** -53 * (s_num + abs(v) * s_den) / dv + slope * r * 8 * 2.0 ** -52 + ZTOL_ULPS * 2.0 ** -53 * abs(v)
+        return abs(F(z) - F(v)) <= F(tol)
 
     def matches(self, reg, p, z):
         """is z the value of formula `reg` (C central, L lower tail, H upper tail) at p?"""
@@ -748,28 +764,36 @@ def strata_ok(xs, N, symmetric):
 
 SIZES = [(1, 2), (3, 10), (7, 64), (50, 200)]
 
-COQ_HEAD = ('From Coq Require Import ZArith QArith List String.\n'
-            'From BV Require Import Model.DrawsGen Gen.DrawCatalogue.\nImport ListNotations.\nLocal Open Scope Q_scope.\n'
-            'Definition dflt := mkEntry "" "" "" FUniform 0 0 false false false false MNone 0 false.\n'
-            'Definition E (k : nat) := nth k catalogue dflt.\nDefinition idq (x : Q) := x.\n'
-            'Definition chk_out k ss n tol us perm out :=\n'
-            '  close_rows tol (gen_output idq (E k) ss n (List.concat us) perm) out.\n'
-            'Definition chk_uin k ss n tol us perm uin :=\n'
-            '  close_list tol (List.concat (gen_rows (E k) ss n (List.concat us) perm)) (List.concat uin).\n'
-            'Definition chk_halton b len skip (s sh : bool) perm tol ss n out :=\n'
-            '  close_rows tol (reshape ss n (map (symopt s)\n'
-            '     (if sh then permute perm (halton_py b len skip) else halton_py b len skip))) out.\n'
-            'Definition chk_mlhs us perm (s : bool) tol ss n out :=\n'
-            '  close_rows tol (reshape ss n (mlhs (List.concat us) perm s)) out.\n'
-            'Definition region_code (r : wregion) : Z :=\n'
-            '  match r with WCentral => 0 | WTailLow => 1 | WTailHigh => 2 | WUnassigned => 3 end%Z.\n'
-            'Definition chk_region (u : Q) (code : Z) := (region_code (impl_region wichura u) =? code)%Z.\n')
+# Numbers travel as primitive 63-bit integer literals (mantissa, binary exponent): Coq builds ordinary Z / positive
+# literals by reduction, at ~0.1 ms per digit, primitive integers are read natively (50x faster).  Uint63.to_Z turns
+# them into Z inside vm_compute.
+COQ_HEAD = ('From Coq Require Import ZArith QArith List String Uint63.\n'
+            'From BV Require Import Model.DrawsGen Gen.DrawCatalogue.\nImport ListNotations.\n'
+            'Local Open Scope Q_scope.\nLocal Open Scope uint63_scope.\n'
+            'Definition P (m k : int) : Q := Qmake (Uint63.to_Z m) (Z.to_pos (2 ^ Uint63.to_Z k)).\n'
+            'Definition M (m k : int) : Q := Qmake (- Uint63.to_Z m) (Z.to_pos (2 ^ Uint63.to_Z k)).\n'
+            'Definition NL (l : list int) : list N := map (fun i => Z.to_N (Uint63.to_Z i)) l.\n'
+            'Definition nat_of (i : int) : nat := Z.to_nat (Uint63.to_Z i).\n'
+            'Definition dflt := mkEntry "" "" "" FUniform 0%Z 0%Z false false false false MNone 0%Z false.\n'
+            'Definition E (k : int) := nth (nat_of k) catalogue dflt.\nDefinition idq (x : Q) := x.\n'
+            'Definition chk_out (k ss n : int) tol us perm out :=\n'
+            '  close_rows tol (gen_output idq (E k) (nat_of ss) (nat_of n) (List.concat us) (NL perm)) out.\n'
+            'Definition chk_uin (k ss n : int) tol us perm uin :=\n'
+            '  close_list tol (List.concat (gen_rows (E k) (nat_of ss) (nat_of n) (List.concat us) (NL perm))) (List.concat uin).\n'
+            'Definition chk_halton (b len skip : int) (s sh : bool) perm tol (ss n : int) out :=\n'
+            '  let h := halton_py (Uint63.to_Z b) (nat_of len) (nat_of skip) in\n'
+            '  close_rows tol (reshape (nat_of ss) (nat_of n) (map (symopt s) (if sh then permute (NL perm) h else h))) out.\n'
+            'Definition chk_mlhs us perm (s : bool) tol (ss n : int) out :=\n'
+            '  close_rows tol (reshape (nat_of ss) (nat_of n) (mlhs (List.concat us) (NL perm) s)) out.\n'
+            'Definition region_code (r : wregion) : int :=\n'
+            '  match r with WCentral => 0 | WTailLow => 1 | WTailHigh => 2 | WUnassigned => 3 end.\n'
+            'Definition chk_region (u : Q) (code : int) := (region_code (impl_region wichura u) =? code).\n')
 
 
 class Batch:
     """Coq evaluation of boolean checks, packed into files by size."""
 
-    def __init__(self, ctx, prefix, budget=60000):
+    def __init__(self, ctx, prefix, budget=12000):
         self.ctx, self.prefix, self.budget = ctx, prefix, budget
         self.files, self.cur, self.cur_size, self.owners = {}, [], 0, {}
 
@@ -1026,6 +1050,10 @@ def stream_types(ctx, rep, ref, cat, sizes, coq=True, tag='types'):
         by_size.setdefault((c['ss'], c['n']), {})[c['key']] = r
     batch = Batch(ctx, tag)
     skipped = []
+    # Coq literals cost ~0.1 ms per digit: in the quick tier the arrays of more than 2000 numbers are compared with the
+    # Coq model for a seed-dependent third of the types only (the oracles below see all of them; thorough: all in Coq)
+    rot = ctx.sub_rng(tag + ':rotation')
+    big_in_coq = set(rot.sample([r['key'] for r in cat], min(len(cat), 7))) if ctx.quick else {r['key'] for r in cat}
     for c, r in zip(cases, res):
         rec = cat[c['k']]
         small = {'key': c['key'], 'ss': c['ss'], 'n': c['n'], 'seed': c['seed']}
@@ -1039,7 +1067,7 @@ def stream_types(ctx, rep, ref, cat, sizes, coq=True, tag='types'):
         if rec['symmetric']:
             streams['sym'].record(small)
         oracle_type_case(ctx, rep, ref, rec, c, r, by_size[(c['ss'], c['n'])])
-        if coq:
+        if coq and (c['ss'] * c['n'] <= 2000 or c['key'] in big_in_coq):
             why = model_type_case(batch, rec, c, r)
             if why:
                 skipped.append((small, why))
@@ -1081,8 +1109,8 @@ def stream_halton(ctx, rep):
     for _ in range(ctx.n(40, 400)):
         ss = rng.choice([1, 2, 3, 5, 7, 13, 50])
         n = rng.choice([1, 2, 3, 7, 10, 16, 31, 64, 100, 200])
-        if ss * n > ctx.n(3000, 10000):
-            n = max(1, ctx.n(3000, 10000) // ss)
+        if ss * n > ctx.n(1200, 10000):
+            n = max(1, ctx.n(1200, 10000) // ss)
         cases.append(dict(ss=ss, n=n, base=rng.choice([2, 2, 3, 3, 5, 5, 7, 11, 13, 4, 6, 10]),
                           skip=rng.choice([0, 0, 1, 2, 9, 10, 10, 37, 100, 1000]),
                           symmetric=rng.random() < 0.3, shuffled=rng.random() < 0.25, seed=rng.randrange(1, 2 ** 31)))
@@ -1151,6 +1179,8 @@ def stream_mlhs(ctx, rep):
     for _ in range(ctx.n(30, 300)):
         ss = rng.choice([1, 2, 3, 5, 7, 20])
         n = rng.choice([1, 2, 3, 4, 10, 32, 64, 100])
+        if ss * n > ctx.n(700, 2000):
+            n = max(1, ctx.n(700, 2000) // ss)
         N = ss * n
         kind = rng.random()
         us = []
@@ -1190,7 +1220,7 @@ def stream_mlhs(ctx, rep):
                         f'{len(r["shuffle"])} shuffles, {r["n_uniform"]} uniform calls')
             continue
         tol = sym_tol(MLHS_TOL) if c['symmetric'] else MLHS_TOL
-        usq = '[' + ';\n '.join('[' + '; '.join(f'(dy ({v})%Z 20%N)' for v, _ in ch) + ']' for ch in chunks(c['us'])) + ']'
+        usq = '[' + ';\n '.join('[' + '; '.join(f'(P {v} 20)' for v, _ in ch) + ']' for ch in chunks(c['us'])) + ']'
         batch.add(i, f'chk_mlhs {usq} {coq_nlist(r["shuffle"][0])} {coq_bool(c["symmetric"])} {coq_frac(tol)} '
                      f'{c["ss"]} {c["n"]} {coq_qrows(r["rows"])}', 3 * N + 50)
     out, errs = batch.run()
